@@ -423,7 +423,7 @@ func (i SmallInt) DivideBigInt(other *BigInt) (Value, Value) {
 		return Undefined, Ref(NewZeroDivisionError())
 	}
 	iBigInt := big.NewInt(int64(i))
-	iBigInt.Div(iBigInt, other.ToGoBigInt())
+	iBigInt.Quo(iBigInt, other.ToGoBigInt())
 	if iBigInt.IsInt64() {
 		return SmallInt(iBigInt.Int64()).ToValue(), Undefined
 	}
@@ -437,7 +437,7 @@ func (i SmallInt) DivideSmallInt(other SmallInt) (Value, Value) {
 	result, ok := i.DivideOverflow(other)
 	if !ok {
 		iBigInt := big.NewInt(int64(i))
-		return Ref(ToElkBigInt(iBigInt.Div(iBigInt, big.NewInt(int64(other))))), Undefined
+		return Ref(ToElkBigInt(iBigInt.Quo(iBigInt, big.NewInt(int64(other))))), Undefined
 	}
 	return result.ToValue(), Undefined
 }
